@@ -56,8 +56,8 @@ func init() {
 	def("C11", "exploration", "family 'recovery': switch away from a master in each GTID relation, recovery checker interleaved with manager iterations, resetup."+nt, familyPlan{"recovery", 140, 2500, false})
 	def("C15", "exploration", "engine B family 'dataplane': generated sequences of DCS data operations by 1-3 real zkDCS clients against a reference tree (sequential refinement when fault-free, per-operation admissibility under faults) + ephemeral lifetime."+nt, familyPlan{"dataplane", 160, 3000, false})
 	def("C16", "exploration", "family 'cascade': stream_from maps incl. chains/cycles/self/unregistered, ancestor health over time; monitors on CHANGE SOURCE at cascade servers."+nt, familyPlan{"cascade", 140, 2500, false})
-	def("C17", "exploration", "family 'offline': zone layouts, caps, lag scripts around both thresholds, broken replication, resetup status; per-pass policy constraints."+nt, familyPlan{"offline", 140, 2500, false})
-	def("C18", "exploration", "family 'disk': usage scripts for master and semi-sync replicas through the three zones; hysteresis table vs read_only statements."+nt, familyPlan{"disk", 140, 2500, false})
+	def("C17", "exploration", "family 'offline': zone layouts, caps, lag scripts around both thresholds, broken replication, resetup status; per-pass policy constraints."+nt, familyPlan{"offline", 300, 6000, false})
+	def("C18", "exploration", "family 'disk': usage scripts for master and semi-sync replicas through the three zones; hysteresis table vs read_only statements."+nt, familyPlan{"disk", 300, 6000, false})
 	def("C19", "exploration", "family 'optimization': registries, lag scripts, CLI enable/disable interleaved with syncs, switchovers to lagging replicas."+nt, familyPlan{"optimization", 140, 2500, false})
 	def("C20", "exploration", "family 'chaos': long runs with everything at once + tool-only tree contents; process death, goroutine/connection growth in steady runs, race detector build."+nt, familyPlan{"chaos", 60, 1200, false}, familyPlan{"chaos", 12, 200, true})
 }
